@@ -102,6 +102,20 @@ func (p *c20) Gen(seed uint64, i int, tier string) (any, bool) {
 		// several rejected recipients with different codes, possibly in several messages
 		esc = r.Chance(1, 2)
 		sc.Label = "multi-rcpt"
+		if r.Chance(1, 3) && nm >= 2 {
+			// a rejection whose abandoning RSET is refused or lost as well: the connection is
+			// given up, and every message still in the batch is a failed message too
+			tgt := r.Intn(nm - 1)
+			pos := sim.Pick(r, []string{"MAIL", "RCPT", "DATA"})
+			sc.Label = "reject+rset/" + pos
+			sc.Server.Rules = []refsmtpd.Rule{{Verb: pos, Nth: nth(pos, tgt, 0), Action: c20Action(400+r.Intn(200), sim.Pick(r, c20Forms))},
+				{Verb: "RSET", Nth: tgt + 1, Action: sim.Pick(r, []refsmtpd.Action{c20Action(451, "enh"), c20Action(554, "plain"), {Kind: "drop"}})}}
+			if esc {
+				caps = append(caps, "ENHANCEDSTATUSCODES")
+			}
+			sc.Server.Caps = caps
+			return sc, true
+		}
 		for m := 0; m < nm; m++ {
 			if m != target && !r.Chance(1, 3) {
 				continue
@@ -121,6 +135,7 @@ func (p *c20) Gen(seed uint64, i int, tier string) (any, bool) {
 		caps = append(caps, "ENHANCEDSTATUSCODES")
 	}
 	sc.Server.Caps = caps
+	sc.Server.MultiLine = i >= nEnum && r.Chance(1, 4)
 	if i >= nEnum && r.Chance(1, 2) {
 		// the session is upgraded with STARTTLS and the second EHLO reply differs from the first:
 		// what counts is the reply in force when the command is refused
@@ -308,6 +323,19 @@ func (p *c20) Exec(t *testing.T, scAny any) Outcome {
 			continue // victim of an illegal dialogue, C04's subject
 		}
 		if seg == nil && illegal {
+			continue
+		}
+		if seg == nil {
+			// the message never reached MAIL: the connection was gone by the time its turn came.
+			// It was not delivered, so it is a failed message and has to say so.
+			failedMsgs++
+			if st.Delivered {
+				out.violate("C20:unsent-but-delivered", "message %s never reached the server, yet IsDelivered() is true", b.Spec.Token)
+			}
+			if st.SE == nil {
+				out.violate("C20:unsent-without-error", "message %s of the batch was never sent (the connection had been given up after an earlier failure) but carries no SendError", b.Spec.Token)
+			}
+			keyParts = append(keyParts, "unsent")
 			continue
 		}
 		if !want.fail {
